@@ -24,6 +24,9 @@ type fnInfo struct {
 
 type Engine struct {
 	staleContracts []staleContract
+	localsBase  map[string][]localDecl // baseline declarations per function (rename repair)
+	renameCache map[*types.Func]*renameMaps
+	renameMu    sync.Mutex
 	callNames map[string]bool // names declared as functions or used in call position anywhere in the repo packages
 	axiomsUsed sync.Map // axiom name -> true: included in at least one query of this run
 	oncallHit sync.Map // *Clause -> true: oncall clauses that matched at least one call site
